@@ -309,33 +309,37 @@ part afterwards.) -/
 def ftInverseStatus (hc : Bool) (shifts : List Bool) : Option String :=
   if hc && !shifts.all id then some "err:cast" else none
 
-/-- `FourierTransform._call_numpy`: pre-process ALL axes, (NumPy's `rfftn` discards the
-imaginary part of complex input), transform, post-process all axes. -/
+/-- `FourierTransform._call_numpy` / `_call_pyfftw`: pre-process ALL axes, (NumPy's `rfftn`
+discards the imaginary part of complex input; the pyfftw branch asserts instead, see
+`ftForwardStatus`), transform (`fftn`/`rfftn`/`n·ifftn`, resp. `pyfftw_call(…,
+normalise_idft=False)`), post-process all axes. -/
 def ftForwardNd (roots : Nat → Option (K × K)) (e : Rat → K) (re : K → K)
     (amp : Nat → Nat → K) (c : Nat → Nat → Rat) (t : Nat → Rat)
-    (plus hc : Bool) (rshape axes : List Nat) (shifts : List Bool) (x : Array K) :
+    (fftw plus hc : Bool) (rshape axes : List Nat) (shifts : List Bool) (x : Array K) :
     Option (List Nat × Array K) := do
   let pre : List (Nat × Nat × ((Nat → K) → Nat → K)) := (axes.zip shifts).map fun (a, sh) =>
     let n := rshape.getD a 1
     (a, n, fun f k => e (preExp n sh plus k) * f k)
   let (_, x1) := applyAxes rshape pre x
   let x2 := if hc then x1.map re else x1
-  let (fshape, y) ← dftForwardNd roots false plus hc rshape axes x2
+  let (fshape, y) ← dftForwardNd roots fftw plus hc rshape axes x2
   let post : List (Nat × Nat × ((Nat → K) → Nat → K)) := axes.map fun a =>
     (a, fshape.getD a 1, fun f j => (e (postExp plus (t a) (c a j)) * amp a j) * f j)
   pure (applyAxes fshape post y)
 
-/-- `FourierTransformInverse._call_numpy` (`plus` is the sign of the inverse operator). -/
+/-- `FourierTransformInverse._call_numpy` / `_call_pyfftw` (`plus` is the sign of the inverse
+operator; pyfftw: `pyfftw_call(…, normalise_idft=True)` and `/= prod` for sign `'-'`; a real
+range without `halfcomplex` receives the real part of the post-processed complex array). -/
 def ftInverseNd (roots : Nat → Option (K × K)) (e : Rat → K) (conj re : K → K)
     (amp : Nat → Nat → K) (c : Nat → Nat → Rat) (t : Nat → Rat)
-    (plus hc realRan : Bool) (rshape axes : List Nat) (shifts : List Bool) (x : Array K) :
+    (fftw plus hc realRan : Bool) (rshape axes : List Nat) (shifts : List Bool) (x : Array K) :
     Option (List Nat × Array K) := do
   let last := axes.getLast?
   let fshape := rshape.zipIdx.map fun (n, a) => if hc && some a == last then hcLen n else n
   let pre : List (Nat × Nat × ((Nat → K) → Nat → K)) := axes.map fun a =>
     (a, fshape.getD a 1, fun g j => (e (postExp plus (t a) (c a j)) / amp a j) * g j)
   let (_, x1) := applyAxes fshape pre x
-  let (_, y) ← dftInverseNd roots conj re false plus hc rshape axes x1
+  let (_, y) ← dftInverseNd roots conj re fftw plus hc rshape axes x1
   let post : List (Nat × Nat × ((Nat → K) → Nat → K)) := (axes.zip shifts).map fun (a, sh) =>
     let n := rshape.getD a 1
     (a, n, fun f k => e (preExp n sh plus k) * f k)
